@@ -44,9 +44,14 @@ type ImplCheck struct {
 	Impl  string `json:"impl"`
 }
 
+// BoundedCheck: an exhaustive check of real functions over a stated finite family (labelled bounded, never
+// counted as proved). The Go test file lives under /verif/bounded and is injected with `go test -overlay`.
 type BoundedCheck struct {
-	Name string `json:"name"`
-	Cmd  string `json:"cmd"`
+	Name  string `json:"name"`
+	Pkg   string `json:"pkg"`
+	File  string `json:"file"`
+	Run   string `json:"run"`
+	Bound string `json:"bound"` // statement of the bound
 }
 
 var defaultPackages = []string{"./x/...", "./adapter/...", "./ibc/...", "./syscontracts/...", "./app/...", "./types/..."}
@@ -263,6 +268,18 @@ func runCheck(id string, opts checkOpts) *checkResult {
 	inv := runInventory(prog, cx, cfg)
 	all = append(all, inv...)
 
+	// bounded stand-ins (run concurrently with nothing else; they are ordinary go tests)
+	for _, bc := range cfg.Bounded {
+		out, ok := runBounded(bc, opts)
+		o := &Obligation{Fn: "bounded", Kind: "bounded", Label: bc.Name, Goal: "true", decls: newDecls(), Detail: bc.Bound, Bounded: true, precomputed: true, Solver: "go test (exhaustive over the stated family)"}
+		o.Model = out
+		if ok {
+			o.Status = "unsat"
+		} else {
+			o.Status = "sat"
+		}
+		all = append(all, o)
+	}
 	discharge(all, runDir, opts.timeoutS, 16, opts.tier == "thorough")
 	res.obls = all
 
@@ -476,6 +493,10 @@ func writeReplay(path, id string, o *Obligation, cfg *PropConfig, prog *Program)
 	fmt.Fprintf(&b, "\ngoal:\n  %s\n", trunc(o.Goal, 2000))
 	fmt.Fprintf(&b, "\nsolver output / model:\n%s\n", trunc(o.Model, 20000))
 	confirmed := false
+	if o.Kind == "bounded" {
+		// the bounded stand-in runs the real code: its failing value is a concrete failing input
+		confirmed = strings.Contains(o.Model, "BOUNDED-FAIL")
+	}
 	// replay adapters (when available) are run here and their output appended
 	if out, ok := runReplayAdapter(id, o, cfg); out != "" {
 		fmt.Fprintf(&b, "\nreplay on the real code:\n%s\n", out)
@@ -577,6 +598,12 @@ func writeEvidence(id string, cfg *PropConfig, opts checkOpts, res *checkResult,
 			disProof++
 		}
 	}
+	var boundedDetails []map[string]string
+	for _, o := range all {
+		if o.Kind == "bounded" {
+			boundedDetails = append(boundedDetails, map[string]string{"name": o.Label, "bound": o.Detail, "status": map[bool]string{true: "held on the whole family", false: "FAILED"}[o.ok()], "output": trunc(o.Model, 600)})
+		}
+	}
 	level := cfg.Level
 	if level == "" {
 		level = "proof"
@@ -604,6 +631,7 @@ func writeEvidence(id string, cfg *PropConfig, opts checkOpts, res *checkResult,
 			"by_solver":                bySolver,
 			"bounded_obligations":      nBounded,
 			"bounded_discharged":       nBoundedOK,
+			"bounded_checks":           boundedDetails,
 			"cover_queries":            covers,
 			"engine_notes":             noteList,
 			"undecided":                res.undecided,
